@@ -65,6 +65,11 @@ def normalize_input(prog: Prog, inp: dict) -> dict:
         r[sy.name] &= (1 << sy.bits) - 1
         if sy.name.startswith("bal_") and r[sy.name] > (1 << 128):
             r[sy.name] >>= 128
+        # inputs the program uses as array indices / struct offsets stay "reasonable" (A4: a hash plus an
+        # offset does not wrap around or reach another hash)
+        bound = prog.meta.get("bounded_inputs", {}).get(sy.name)
+        if bound:
+            r[sy.name] %= bound
     return r
 
 
